@@ -246,20 +246,37 @@ def harness_env():
             "RUSTFLAGS": "--cfg %s -Awarnings" % CFG_GUARD}
 
 
+def _override_paths():
+    """When VERIF_REPO points at another checkout (a scratch worktree carrying a candidate
+    change), override every /repo path dependency with the same crate from that checkout."""
+    if os.path.realpath(REPO) == "/repo":
+        return [], TARGET
+    dirs = []
+    for root, d, files in os.walk(REPO):
+        d[:] = [x for x in d if x not in ("target", ".git", "fuzz")]
+        if "Cargo.toml" in files and "[package]" in open(os.path.join(root, "Cargo.toml")).read():
+            dirs.append(root)
+    tag = hashlib.sha256(os.path.realpath(REPO).encode()).hexdigest()[:8]
+    return ["--config", "paths=%s" % json.dumps(sorted(dirs))], os.path.join(CACHE, "target-alt-" + tag)
+
+
 def harness_build(binname, release=False, timeout=3000, package=None):
-    """Build one harness binary against /repo's working tree. Returns (ok, path, log)."""
-    with Lock("cargo"):
+    """Build one harness binary against the repository's working tree. Returns (ok, path, log)."""
+    extra, target = _override_paths()
+    with Lock("cargo-" + os.path.basename(target)):
         lock_src = os.path.join(REPO, "Cargo.lock")
         lock_dst = os.path.join(HARNESS, "Cargo.lock")
-        if not os.path.exists(lock_dst) or os.path.getmtime(lock_src) > os.path.getmtime(lock_dst):
+        if not os.path.exists(lock_dst) or open(lock_src).read() != open(lock_dst).read():
             shutil.copy(lock_src, lock_dst)
-        cmd = ["cargo", "build", "--offline", "--bin", binname]
+        cmd = ["cargo", "build", "--offline", "--bin", binname] + extra
         if package:
             cmd += ["-p", package]
         if release:
             cmd.append("--release")
-        rc, out = sh(cmd, cwd=HARNESS, env=harness_env(), timeout=timeout)
-    path = os.path.join(TARGET, "release" if release else "debug", binname)
+        env = harness_env()
+        env["CARGO_TARGET_DIR"] = target
+        rc, out = sh(cmd, cwd=HARNESS, env=env, timeout=timeout)
+    path = os.path.join(target, "release" if release else "debug", binname)
     return rc == 0, path, out
 
 
